@@ -87,7 +87,7 @@ def resolve_ssm(ssm_parameter_key: str, params: Dict) -> str:
 def resolve_ref(function_body, params: Dict, mappings: Dict[str, Dict], conditions: Dict[str, bool]) -> str:
     resolved_ref = resolve(function_body, params, mappings, conditions)
     if resolved_ref in params:
-        return params[resolved_ref]
+        return resolve(params[resolved_ref], params, mappings, conditions)
     else:
         logger.warning(f"Using `UNDEFINED_PARAM_{resolved_ref}` for {resolved_ref}. Original value wasn't available.")
         return f"UNDEFINED_PARAM_{resolved_ref}"
